@@ -6,5 +6,5 @@ scratch=$(mktemp -d /var/tmp/dsim_mut.XXXXXX)
 trap 'rm -rf "$scratch"' EXIT
 cp -r /repo/dimarray "$scratch/dimarray"
 ( cd "$scratch" && patch -p1 -s < "$patch" ) || { echo "PATCH-FAILED $patch"; exit 3; }
-VERIF_REPO="$scratch" /venv/bin/python /verif/check.py "$prop" --no-evidence "$@" 2>&1 | grep -E "VIOLATION|violation|KNOWN|HARNESS|runs," | cut -c1-300 | head -8
+VERIF_REPO="$scratch" /venv/bin/python /verif/check.py "$prop" --no-evidence "$@" 2>&1 | grep -E "^  violation |KNOWN|HARNESS|quick:|thorough:" | cut -c1-300 | head -6
 exit ${PIPESTATUS[0]}
